@@ -269,7 +269,26 @@ def eval_show(corr_module, case_type, term, workdir, show_fn='show', extra_impor
     return out.strip()[-6000:]
 
 
+def _sanitize(x):
+    import math
+    if isinstance(x, float) and not math.isfinite(x):
+        return {'__float__': repr(x)}
+    if isinstance(x, dict):
+        return {(k if isinstance(k, str) else repr(k)): _sanitize(v) for k, v in x.items()}
+    if isinstance(x, (list, tuple)):
+        return [_sanitize(v) for v in x]
+    if isinstance(x, (set, frozenset)):
+        return [_sanitize(v) for v in sorted(x, key=repr)]
+    if isinstance(x, bytes):
+        return {'__bytes__': list(x)}
+    if isinstance(x, int) and not isinstance(x, bool) and abs(x) > 2 ** 4000:
+        return {'__bigint_digits__': len(str(abs(x)))}
+    return x
+
+
 def jdump(x):
+    x = _sanitize(x)
+
     def default(o):
         if isinstance(o, bytes):
             return {'__bytes__': list(o)}
